@@ -68,7 +68,24 @@ def streams(tier, rng):
         Stream("precision-uniform-clock", "prec", prec),
         Stream("tsc-conversion-release", "tsc", tsc[: len(tsc) // 3], nontrivial=nt_tsc, release=True),
         precq_stream(tier, rng),
+        # the same conversion through the Timestamp::duration_since dispatcher the sampling loop uses,
+        # with frequencies dividing 10^12 and spans >= 2^64 ps well represented (debug and release)
+        Stream("tsc-conversion-dispatcher", "tscd", tsc + disp_extra(rng, 600 if tier == "quick" else 20000), nontrivial=nt_tsc),
+        Stream("tsc-conversion-dispatcher-release", "tscd", tsc[: len(tsc) // 3] + disp_extra(rng, 300 if tier == "quick" else 10000),
+               nontrivial=nt_tsc, release=True),
     ]
+
+
+def disp_extra(rng, n):
+    out = []
+    divs = [1, 2, 4, 5, 8, 10, 100, 1000, 10**6, 10**9, 2 * 10**9, 2_500_000_000, 4 * 10**9, 5 * 10**9, 10**10, 10**12]
+    while len(out) < n:
+        f = rng.choice(divs)
+        span = rng.choice([2**32 - 1, 2**32, 18_446_744, 18_446_745, 2**40, 2**63, 2**64 - 1, rng.getrandbits(rng.randrange(20, 65))])
+        a = rng.choice([0, 1, rng.getrandbits(32)])
+        b = min(2**64 - 1, a + span)
+        out.append(f"{a} {b} {f}")
+    return out
 
 
 def precq_stream(tier, rng):
